@@ -15,6 +15,7 @@ func init() {
 	vhRegister("VH_C08_Scribble", func(p []int) { VH_C08_Scribble(p[0], p[1]) })
 	vhRegister("VH_C08_Row", func(p []int) { VH_C08_Row(p[0]) })
 	vhRegister("VH_C13_Marks", func(p []int) { VH_C13_Marks(p[0]) })
+	vhRegister("VH_C08_Update", func(p []int) { VH_C08_Update(p[0]) })
 }
 
 // vReuseConn hands out windows of ONE reusable receive buffer, as the driver does.
@@ -135,6 +136,19 @@ var vCellShapes = []vCellShape{
 	{replication.TypeDate, 0, 3},
 	{replication.TypeBit, 1 << 8, 1},
 	{replication.TypeSet, 2, 2},
+	// 13..
+	{replication.TypeShort, 0, 2},
+	{replication.TypeInt24, 0, 3},
+	{replication.TypeLongLong, 0, 8},
+	{replication.TypeTime, 0, 3},
+	{replication.TypeDateTime, 0, 8},
+	{replication.TypeTime2, 0, 3},
+	{replication.TypeTime2, 3, 5},
+	{replication.TypeDateTime2, 3, 7},
+	{replication.TypeNewDate, 0, 3},
+	{replication.TypeEnum, 1, 1},
+	{replication.TypeString, uint16(replication.TypeString)<<8 | 8, 3}, // CHAR(8): 1 length byte + 2
+	{replication.TypeGeometry, 1, 3},
 }
 
 // vCellData draws the bytes of one cell of the shape; zero: all payload bytes zero.
@@ -148,7 +162,7 @@ func vCellData(sh vCellShape, zero bool) []byte {
 	switch sh.typ {
 	case replication.TypeVarchar:
 		d[0] = byte(sh.size - 1)
-	case replication.TypeBlob:
+	case replication.TypeBlob, replication.TypeGeometry, replication.TypeString:
 		d[0] = byte(sh.size - 1)
 	}
 	return d
@@ -254,6 +268,60 @@ func VH_C08_Row(set int) {
 		}
 	}
 	vhCover("row")
+}
+
+// VH_C08_Update: the before and the after image of an UPDATE row (and the images of a second row)
+// are private to each other: the real appendUpdateEventFromRows decodes two rows whose before and
+// after cells are arbitrary (equal or not); overwriting any delivered value changes no other one.
+func VH_C08_Update(set int) {
+	var shapes []vCellShape
+	for _, i := range vRowSets[set] {
+		shapes = append(shapes, vCellShapes[i])
+	}
+	tc := vRowTable(shapes)
+	n := len(shapes)
+	mkImage := func() []byte {
+		var data []byte
+		for _, sh := range shapes {
+			data = append(data, vCellData(sh, false)...)
+		}
+		return data
+	}
+	rs := &replication.Rows{DataColumns: replication.NewServerBitmap(n), IdentifyColumns: replication.NewServerBitmap(n)}
+	for c := 0; c < n; c++ {
+		rs.DataColumns.Set(c, true)
+		rs.IdentifyColumns.Set(c, true)
+	}
+	for r := 0; r < 2; r++ {
+		rs.Rows = append(rs.Rows, replication.Row{NullColumns: replication.NewServerBitmap(n), NullIdentifyColumns: replication.NewServerBitmap(n),
+			Identify: mkImage(), Data: mkImage()})
+	}
+	ev, err := appendUpdateEventFromRows(tc, rs, 1)
+	vhAssert(err == nil && ev != nil && len(ev.RowIdentifies) == 2 && len(ev.RowValues) == 2, "update rows decode")
+	var all []*ColumnData
+	for r := 0; r < 2; r++ {
+		all = append(all, ev.RowIdentifies[r].Columns...)
+		all = append(all, ev.RowValues[r].Columns...)
+	}
+	snaps := make([][]byte, len(all))
+	for i, c := range all {
+		snaps[i] = make([]byte, len(c.Data))
+		copy(snaps[i], c.Data)
+	}
+	victim := vhChoose(len(all))
+	for i := range all[victim].Data {
+		all[victim].Data[i] = vhU8()
+	}
+	for i, c := range all {
+		if i == victim {
+			continue
+		}
+		vhAssert(len(c.Data) == len(snaps[i]), "length stable")
+		for k := range snaps[i] {
+			vhAssert(c.Data[k] == snaps[i][k], "overwriting one delivered value never changes any other delivered value (before / after images, other rows)")
+		}
+	}
+	vhCover("update")
 }
 
 // VH_C13_Marks: NULL, empty and absent are distinguishable in every column position.
